@@ -715,11 +715,20 @@ func (in *Input) shadowClass() bool {
 		}
 		for i := range in.Types[s.Origin].Fields {
 			f := &in.Types[s.Origin].Fields[i]
-			if omit[f.Name] || !(f.Ty.K == "slice" || f.Ty.K == "map") {
+			if omit[f.Name] {
 				continue
 			}
 			ps := map[string]bool{}
-			f.Ty.pkgs(ps)
+			switch {
+			case f.Ty.K == "slice" || f.Ty.K == "map":
+				f.Ty.pkgs(ps)
+			case f.Ty.K == "alias" && (f.Ty.unalias().K == "slice" || f.Ty.unalias().K == "map"):
+				// since fix adc5fac a container field declared through an alias is copied with make(<alias name>, …):
+				// the block mentions the alias's own package only
+				ps[f.Ty.Pkg] = true
+			default:
+				continue
+			}
 			for p := range ps {
 				if p != "target" && shadowName(pkgNameOf(in, p), "in", "out", "i", "o") {
 					return true
